@@ -50,8 +50,12 @@ TH_TIER = {"quick": ["mie", "ms2", "mielens-off", "mielens-check",
            "thorough": list(THEORIES)}
 SHAPE_TIER = {"quick": [(3, 3), (1, 5), (4, 5), (7, 2), (1, 1)],
               "thorough": SHAPES}
-OPS = ["holo", "field", "intensity", "subset", "update", "holo-subset",
-       "subimage", "scatmat"]
+# "holo-shifted" / "holo-moved" differ from "holo" only by a detector of the
+# same shape with a slightly shifted origin / a slightly moved scatterer, so
+# that anything remembered under a too-coarse key (shape, object identity)
+# shows up as a history dependence
+OPS = ["holo", "holo-shifted", "holo-moved", "field", "intensity", "subset",
+       "update", "holo-subset", "subimage", "scatmat"]
 
 
 def cases(tier, seed):
@@ -315,7 +319,10 @@ _S = {}
 def _shared():
     if not _S:
         _S["det"] = H.det_grid((4, 4), 0.1, name="cam")
+        _S["det2"] = H.det_grid((4, 4), 0.1, origin=(0.013, -0.007),
+                                name="cam")
         _S["scat"], _S["th"] = _theory("mie")
+        _S["scat2"] = H.mk_scatterer(H.ST["mie"][0], shift=(0.011, 0.0, 0.02))
     return _S
 
 
@@ -328,6 +335,10 @@ def _op(name):
     det, sc, th = S["det"], S["scat"], S["th"]
     if name == "holo":
         r = calc_holo(det, sc, theory=th, **OPT)
+    elif name == "holo-shifted":
+        r = calc_holo(S["det2"], sc, theory=th, **OPT)
+    elif name == "holo-moved":
+        r = calc_holo(det, S["scat2"], theory=th, **OPT)
     elif name == "field":
         r = calc_field(det, sc, theory=th, **OPT)
     elif name == "intensity":
@@ -355,7 +366,8 @@ def _op(name):
 def _run_history(case, ck):
     seq = case["seq"]
     S = _shared()
-    before = (fp_xarray(S["det"]), repr(S["scat"]))
+    before = (fp_xarray(S["det"]), repr(S["scat"]), fp_xarray(S["det2"]),
+              repr(S["scat2"]))
     ref = case["ref"]
     for name in seq:
         if str(ref[name]).startswith("FAILED"):
@@ -371,7 +383,8 @@ def _run_history(case, ck):
                 "objects in a pristine interpreter" %
                 (i + 1, name, ">".join(seq)))
         ck.true("input-untouched",
-                (fp_xarray(S["det"]), repr(S["scat"])) == before,
+                (fp_xarray(S["det"]), repr(S["scat"]), fp_xarray(S["det2"]),
+                 repr(S["scat2"])) == before,
                 "the shared detector or scatterer was modified by step %d "
                 "(%s)" % (i + 1, name))
         outs.append(digest(got))
